@@ -81,7 +81,10 @@ func c10target(ts map[string]*gen.Template, name string, target int) {
 		ts[name+"base"] = tpl(name+"base", append(append([]gen.Node{tx("TB(")}, c10probe(name+"base.top")...),
 			blk("ba", name+"base.ba"), tx("/"), blk("bb", name+"base.bb"), tx(")"))...)
 	default:
-		body := append([]gen.Node{tx("T(")}, c10probe(name+".top")...)
+		// the target defines a macro of its own and calls it through _self, however it was entered
+		body := []gen.Node{&gen.NMacro{Name: "tm", Params: []string{"p"}, Body: []gen.Node{tx("<tm:"), pr(nm("p")), tx(">")}}, tx("T(")}
+		body = append(body, pr(&gen.EMethod{X: nm("_self"), Name: "tm", Args: []gen.Expr{str(name)}}))
+		body = append(body, c10probe(name+".top")...)
 		body = append(body, sets()...)
 		body = append(body, blk("ba", name+".ba"), tx("/"), blk("bb", name+".bb"), tx(")"))
 		ts[name] = tpl(name, body...)
@@ -283,7 +286,7 @@ func (p *c10) Run(i int) (res fw.Result) {
 }
 
 func (p *c10) Rule() string {
-	return "exhaustive product {include, embed} x {plain, with {w}, only, with+only, with overriding a host variable, with an existing hash variable + only, with an existing hash variable - a Go map of type map[string]Value, map[string]interface{}, map[string]string or keyed by a defined string type} x call site {top level, loop body whose loop variable collides with a host variable (once with a string, once with null; the construct is used again directly after the loop), block of an extending host whose ancestor has blocks named like the target's, macro body, if body, block of a non-extending host that shares both block names} x target {plain, assigns colliding names x and w, assigns a fresh name, extends a base, extends a base and assigns inside a block} x embed override subset (4 subsets of {ba, bb}; bb's override calls parent(); ba's override has a nested block of its own for half of the targets) x {once, twice in a row with the complementary override subset}; random: a second (and third) include/embed nested inside the target's block or an override. Host and target print which of x, y, w, z they see (probe function) at the start, after assignments, inside every block and override, and after the construct. Oracle: reference model (copy of the visible variables overlaid by the with-hash, or the with-hash alone under only; assignments never flow back; embed = exactly the overrides of its body in front of the target's own chain). Non-trivial = a name or block-name collision exists; enumerated coordinates are distinct by construction."
+	return "exhaustive product {include, embed} x {plain, with {w}, only, with+only, with overriding a host variable, with an existing hash variable + only, with an existing hash variable - a Go map of type map[string]Value, map[string]interface{}, map[string]string or keyed by a defined string type} x call site {top level, loop body whose loop variable collides with a host variable (once with a string, once with null; the construct is used again directly after the loop), block of an extending host whose ancestor has blocks named like the target's, macro body, if body, block of a non-extending host that shares both block names} x target {plain, assigns colliding names x and w, assigns a fresh name, extends a base, extends a base and assigns inside a block; the non-extending ones define a macro and call it through _self} x embed override subset (4 subsets of {ba, bb}; bb's override calls parent(); ba's override has a nested block of its own for half of the targets) x {once, twice in a row with the complementary override subset}; random: a second (and third) include/embed nested inside the target's block or an override. Host and target print which of x, y, w, z they see (probe function) at the start, after assignments, inside every block and override, and after the construct. Oracle: reference model (copy of the visible variables overlaid by the with-hash, or the with-hash alone under only; assignments never flow back; embed = exactly the overrides of its body in front of the target's own chain). Non-trivial = a name or block-name collision exists; enumerated coordinates are distinct by construction."
 }
 
 func (p *c10) Assumptions() []string {
